@@ -3,3 +3,5 @@
 pub mod net;
 pub mod sim;
 pub mod smoke;
+pub mod e2e;
+pub mod hostile;
